@@ -32,7 +32,7 @@ pub fn run(args: &[String]) -> i32 {
     let field_cases = arg(args, "--fields");
     let out_path = arg(args, "--out").expect("--out");
     let policies: usize = arg(args, "--policies").and_then(|s| s.parse().ok()).unwrap_or(3);
-    let (mut contents, _) = Contents::load(arg(args, "--contents").unwrap_or("/verif/data/contents.json"));
+    let (mut contents, _) = Contents::load(&arg(args, "--contents").map(|s| s.to_string()).unwrap_or_else(crate::util::contents_default));
     if let Some(p) = field_cases { contents.load_pool(p); }
     let mut evaluated = 0u64;
     let mut nontrivial = 0u64;
